@@ -180,19 +180,34 @@ def r3_bounded_copy(ctx):
     gn = [g for g in gn if g]
     cutn = [e.key() for g in gn for e in g["false"]]   # false = not null
     okn = bool(gn) and t.bb not in cfg.reachable(cfg.entry, cut_edges=cutn) and t.bb not in cfg.edge_targets_reachable([e for g in gn for e in g["true"]])
-    gz = []
+    gz = []   # edge sets on which bufsize is known to be non-zero
     for blk in cb.blocks:
         for i, s in enumerate(blk.stmts):
-            if s.kind == "assign" and s.rv["k"] == "bin" and s.rv["op"] in ("Gt", "Ne", "Lt"):
+            if s.kind == "assign" and s.rv["k"] == "bin" and s.rv["op"] in ("Gt", "Ne", "Lt", "Eq", "Le", "Ge"):
                 a, c = Operand(s.rv["a"]), Operand(s.rv["b"])
-                if (c.is_const and c.int_value() == 0 and s.rv["op"] in ("Gt", "Ne")) or (a.is_const and a.int_value() == 0 and s.rv["op"] == "Lt"):
-                    var = a if c.is_const else c
-                    vo = T.origins_of_operand(cb, blk.idx, i, var)
-                    if any(x.kind == "param" and x.detail == 3 for x in vo):
-                        be = stmt_bool_edges(cb, blk.idx, i)
-                        if be:
-                            gz.append(be)
-    okz = bool(gz) and t.bb not in cfg.reachable(cfg.entry, cut_edges=[e.key() for g in gz for e in g["true"]])
+                if c.is_const and c.int_value() == 0 and not a.is_const:
+                    var, flipped = a, False
+                elif a.is_const and a.int_value() == 0 and not c.is_const:
+                    var, flipped = c, True
+                else:
+                    continue
+                vo = T.origins_of_operand(cb, blk.idx, i, var)
+                if not any(x.kind == "param" and x.detail == 3 for x in vo):
+                    continue
+                be = stmt_bool_edges(cb, blk.idx, i)
+                if not be:
+                    continue
+                op = s.rv["op"]
+                # truth of the comparison for x == 0 (unsigned): the other edge is the non-zero one
+                l, r = (0, 0)
+                truth_at_zero = {"Gt": False, "Ne": False, "Lt": False, "Eq": True, "Le": True, "Ge": True}[op]
+                if op in ("Ge",) and not flipped:
+                    continue   # x >= 0 says nothing
+                if op in ("Le",) and flipped:
+                    continue   # 0 <= x says nothing
+                nonzero = be["false"] if truth_at_zero else be["true"]
+                gz.append(nonzero)
+    okz = bool(gz) and t.bb not in cfg.reachable(cfg.entry, cut_edges=[e.key() for g in gz for e in g])
     (out.append(holds("C17.R3", "copy_path_into_buffer:guards", t.where(), "copy only for non-NULL buffer and bufsize > 0")) if okn and okz else
      out.append(violated("C17.R3", "copy_path_into_buffer:guards", t.where(), "copy not guarded by non-NULL (%s) and non-zero size (%s)" % (okn, okz))))
     # return = full length
